@@ -84,3 +84,8 @@ pub fn b32_encode(hrp: &str, u5s: &[u8]) -> Option<String> {
 pub fn b32_decode(s: &str) -> Option<(String, Vec<u8>)> {
     bech32::decode(s).ok().map(|(h, d)| (h, d.iter().map(|u| u.to_u8()).collect()))
 }
+pub fn blake2b224(data: &[u8]) -> Vec<u8> {
+    let mut out = [0u8; 28];
+    cryptoxide::blake2b::Blake2b::blake2b(&mut out, data, &[]);
+    out.to_vec()
+}
